@@ -372,7 +372,22 @@ class World:
             x.set_flow(a['v'] * f * conv, a['units'], self._key(x, a['p'], chem))
             return {}
         if op == 'ubad':
-            x.get_flow(a['units'], ...)
+            how = a.get('how', 'get_flow')
+            if how == 'get_flow':
+                x.get_flow(a['units'], ...)
+            else:
+                # a perfectly good unit of ANOTHER dimension (possibly used legitimately a moment ago)
+                view, units = a['view'], a['units']
+                chem = x.chemicals.IDs[0]
+                key = (x.phases[0], chem) if isinstance(x, tmo.MultiStream) else chem
+                if how == 'view_get':
+                    self._indexer(x, view).get_data(units, *((key,) if not isinstance(key, tuple) else key))
+                elif how == 'view_set':
+                    self._indexer(x, view).set_data(1., units, *((key,) if not isinstance(key, tuple) else key))
+                elif how == 'get_property':
+                    x.get_property({'mol': 'F_mol', 'mass': 'F_mass', 'vol': 'F_vol'}[view], units)
+                else:
+                    x.set_property({'mol': 'F_mol', 'mass': 'F_mass', 'vol': 'F_vol'}[view], 1., units)
             return {}
         raise KeyError(op)
 
@@ -572,7 +587,11 @@ def random_op(universe, rng, st, ops):
     if op == 'tset':
         return op, dict(x=x, which=rng.choice(['F_mol', 'F_mass', 'F_vol']), q=rng.choice([[2, 1], [1, 2], [3, 1], [1, 4], [1, 1]]))
     if op == 'ubad':
-        return op, dict(x=x, units=rng.choice(World.BADUNITS))
+        if rng.random() < 0.4:
+            return op, dict(x=x, units=rng.choice(World.BADUNITS), how='get_flow')
+        view = rng.choice(['mol', 'mass', 'vol'])
+        units = rng.choice([u for u, (v, _) in World.UNITS.items() if v != view])
+        return op, dict(x=x, units=units, view=view, how=rng.choice(['view_get', 'view_set', 'get_property', 'set_property']))
     if op == 'read':
         return op, dict(x=x, prop=rng.choice(PROPS))
     if op == 'reset_thermo':
